@@ -279,6 +279,9 @@ def main():
     except (TranslateError, SyntaxError, OSError) as e:
         print(f'TRANSLATE-ERROR {e}')
         sys.exit(3)
+    except Exception as e:      # noqa  (an unanticipated construct is a translation failure, not a crash)
+        print(f'TRANSLATE-ERROR unexpected {type(e).__name__}: {e}')
+        sys.exit(3)
     old = open(a.out).read() if os.path.exists(a.out) else None
     if old != txt:
         os.makedirs(os.path.dirname(a.out), exist_ok=True)
